@@ -36,7 +36,15 @@ AlphaPI      == {97, 63, 62, 32}                              \* a ? > space
 RECURSIVE StringsOver(_, _)
 StringsOver(A, n) == IF n = 0 THEN {<<>>} ELSE LET S == StringsOver(A, n - 1) IN S \cup { Append(s, ch) : s \in S, ch \in A }
 Args2(A) == StringsOver(A, 2)
-ArgsText == Args2(AlphaText)   ArgsAttr == Args2(AlphaAttr)   ArgsComment == Args2(AlphaComment)
+\* arguments that are COMPLETE constructs of the surrounding syntax (a reference, an element, a comment): stored
+\* verbatim they would print as markup - they must be refused or escaped like a lone < or &
+MarkupArgs == { <<38, 97, 109, 112, 59>>,   \* &amp;
+                <<38, 35, 54, 48, 59>>,   \* &#60;
+                <<60, 98, 47, 62>>,   \* <b/>
+                <<60, 33, 45, 45, 99, 45, 45, 62>>,   \* <!--c-->
+                <<97, 38, 97, 109, 112, 59, 98>>,   \* a&amp;b
+                <<38, 101, 59>> }  \* &e;
+ArgsText == Args2(AlphaText) \cup MarkupArgs   ArgsAttr == Args2(AlphaAttr) \cup MarkupArgs   ArgsComment == Args2(AlphaComment)
 ArgsCData == Args2(AlphaCData) ArgsPI == Args2(AlphaPI)
 
 Offsets(s) == 0..(Len(s) + 1) \cup {MAXC}
